@@ -791,8 +791,11 @@ def move_before_loop(source: str) -> str:
             new_node.lineno = scope.lineno - 1
             new_node.col_offset = scope.col_offset
 
-            source = processing.alter_code(source, root, additions=[new_node], removals=[node])
-            return move_before_loop(source)
+            new_source = processing.alter_code(
+                source, root, additions=[new_node], removals=[node]
+            )
+            if new_source != source:  # It is left as it is if there is an ignore comment
+                return move_before_loop(new_source)
 
     return source
 
@@ -1411,8 +1414,12 @@ def _swap_implicit_if_else(source: str) -> str:
                 break
 
     if replacements or removals:
-        source = processing.alter_code(source, root, replacements=replacements, removals=removals)
-        return _swap_explicit_if_else(source)
+        new_source = processing.alter_code(
+            source, root, replacements=replacements, removals=removals
+        )
+        if new_source == source:  # It is left as it is if there is an ignore comment
+            return source
+        return _swap_explicit_if_else(new_source)
 
     return source
 
@@ -3756,8 +3763,12 @@ def missing_context_manager(source: str) -> str:
         break
 
     if replacements:
-        source = processing.alter_code(source, root, replacements=replacements, removals=removals)
-        return missing_context_manager(source)
+        new_source = processing.alter_code(
+            source, root, replacements=replacements, removals=removals
+        )
+        if new_source == source:  # It is left as it is if there is an ignore comment
+            return source
+        return missing_context_manager(new_source)
 
     return source
 
@@ -3910,8 +3921,12 @@ def _fix_duplicate_regular_imports(source: str) -> str:
                     removals.add(node)
 
     if replacements or removals:
-        source = processing.alter_code(source, root, replacements=replacements, removals=removals)
-        return _fix_duplicate_regular_imports(source)
+        new_source = processing.alter_code(
+            source, root, replacements=replacements, removals=removals
+        )
+        if new_source == source:  # It is left as it is if there is an ignore comment
+            return source
+        return _fix_duplicate_regular_imports(new_source)
 
     return source
 
